@@ -31,7 +31,9 @@ var rxFrags = []string{"a", "b", "foo", "(?:", ")", "(", "|", "\\(", "\\)", "\\\
 // groups in a row with a backslash in front, a group in a text without ^ $ .
 var passCorpus = []string{"(?i:a|b)c", "(?s:.c|d)y.", "(?-s:(?s:.c|d)y.)", "(?i:ab)cd", "(?s)foo(?i:BAR)", "pre(?i:SELECT|UNION)",
 	"ab\\.c(?i:d)ef(?s:.)", "(?s)ab\\.c(?i:d)ef(?s:.)", "x(?i:a)(?s:.)\\(?m:y", "(?i:a)(?s:.)b\\.(?m:^)c", "(?m:^)a|(?s:.)b", "(?-s:.)(?s:.)x\\(?i:y(?i:z)",
-	"\\\\(?i:a)\\(?s:.)", "(?i:(?s:.)a|b)c(?m:$)", "a(?i:b)c\\\\d(?s:.)e"}
+	"\\\\(?i:a)\\(?s:.)", "(?i:(?s:.)a|b)c(?m:$)", "a(?i:b)c\\\\d(?s:.)e",
+	// groups that set one flag and clear another (an anchor and a dot in one alternation are printed so)
+	"(?m-s:^a.c|b)", "(?m-s:^a.c)", "x(?m-s:^.)y", "(?i-s:a.)b", "(?s-m:.$)", "(?s)(?m-s:^a.c|b)"}
 
 func genRxText(r *Rng) string {
 	n := r.Range(0, 9)
